@@ -386,6 +386,25 @@ func (w *World) CheckKids(tx *bbolt.Tx, m *Model) error {
 		if fmt.Sprint(valid) != fmt.Sprint(withData) && !(len(valid) == 0 && len(withData) == 0) {
 			return fmt.Errorf("child store %s: IterateValidIds = %q, entities with child data %q", name, valid, withData)
 		}
+		// positioning the valid-id cursor with Seek: it lands on the first entity with child data at or after the target
+		for _, target := range all {
+			cur := ks.IterateValidIds(tx, boolTrue)
+			cur.Seek([]byte(target))
+			want := ""
+			for _, id := range withData {
+				if id >= target {
+					want = id
+					break
+				}
+			}
+			got := ""
+			if cur.IsValid() {
+				got = string(cur.Current())
+			}
+			if got != want {
+				return fmt.Errorf("child store %s: IterateValidIds.Seek(%q) lands on %q, expected %q (entities with child data %q of %q)", name, target, got, want, withData, all)
+			}
+		}
 		for _, id := range all {
 			me := m.Ents[cc.Parent][id]
 			extra, has := me.Kid[name]
